@@ -14,6 +14,8 @@ META = {
     "assumptions": [],
 }
 
+import os
+TMO = int(os.environ.get("C07_TIMEOUT", "900"))
 HOOK = [(r"memhook\._free$", ["vf_free"]), (r"memhook\._calloc$", ["vf_calloc"]), (r"memhook\._malloc$", ["vf_malloc"])]
 SYM_T = ["errno left by callbacks (int)", "M_CTX_USERDATA_AUTOFREE bit", "M_CTX_NAME_AUTOFREE bit (name not duplicated)",
          "auto-free bit of the fresh context", "quit code (uint8, LOOPED jobs)"]
@@ -25,7 +27,7 @@ def teardown(nmod, st, persist, cndup=0, mndup=0, looped=0, drop=0, cb=0, leak=F
                                                               cndup, mndup, looped, drop, cb)
     d = {"NMOD": nmod, "ST0": st[0], "ST1": st[1], "ST2": st[2], "PERSIST": persist, "CNDUP": cndup, "MNDUP": mndup,
          "LOOPED": looped, "DROP": drop, "CB": cb}
-    return l2_job(name, "l2/c07_teardown.c", defines=d, symbolic=SYM_T, bounds=name, unwind=13, fp_extra=HOOK, leak=leak)
+    return l2_job(name, "l2/c07_teardown.c", defines=d, symbolic=SYM_T, bounds=name, unwind=13, fp_extra=HOOK, leak=leak, timeout=TMO)
 
 
 SYM_A = ["errno left by callbacks (int)", "M_CTX_USERDATA_AUTOFREE bit", "module user data identity"]
@@ -35,7 +37,7 @@ MODES = {0: "idle", 1: "instart", 2: "dispatch", 3: "loop", 4: "replace", 5: "in
 def autorel(mode, nmod, persist, keep=1, st=1, leak=False):
     name = "C07.autorel.%s.n%d.p%d.k%d.s%d" % (MODES[mode], nmod, persist, keep, st)
     d = {"MODE": mode, "NMOD": nmod, "PERSIST": persist, "KEEP": keep, "ST": st}
-    return l2_job(name, "l2/c07_autorelease.c", defines=d, symbolic=SYM_A, bounds=name, unwind=13, fp_extra=HOOK, leak=leak)
+    return l2_job(name, "l2/c07_autorelease.c", defines=d, symbolic=SYM_A, bounds=name, unwind=13, fp_extra=HOOK, leak=leak, timeout=TMO)
 
 
 def jobs(tier):
